@@ -108,4 +108,22 @@ PROPS = {
                                      "verify_response_with_signature, parse_etag), HeaderValue::to_str, hex::decode, str::split_once, u64 Display",
                                      "abstract in the proofs: SHA-256, DER decoding, ECDSA P-256 verification (RustCrypto crates, outside the repository)"],
     },
+    "C05": {
+        "run": ["EvalProps"], "functional": False,
+        "n": {"quick": 300, "thorough": 6000},
+        "level_text": "Theorem C05_consent_monitor_accepts_every_model_trace: for every script (all policy, HTTP, installer, clock, storage answers and "
+                      "stimuli), configuration, app set and entry point, the trace of the state-machine model is accepted by the executable consent monitor step5 "
+                      "(requests only inside a check the policy allowed and carrying exactly its parameters; install only for an approved plan; reboot only after a "
+                      "clean install with reboot_needed = yes and the latest reboot_allowed = yes; negative decisions lead to no request/install/reboot); "
+                      "an invalid app set makes run() inert.  The model is tied to the code by trace equality on scripted runs of the real state machine, and the same "
+                      "monitor is run on every implementation trace.",
+        "level_note": "Proved for the model by a trace-Hoare argument over SM.v (Proofs/C05Proof.v), unbounded in script length.  Model = code is sampled. "
+                      "Control requests arrive only at the outer waits in this check's executor mode (in-check arrivals: C11).  Pings while waiting to reboot use the fixed "
+                      "scheduled-task parameters (DESIGN.md section 6).",
+        "diff_meaning": "The consent monitor rejects the implementation's trace (code 2), or the implementation's policy/request/installer projection differs from the model's.",
+        "rule": "random scripted environments: all 5 check decisions, 3 install decisions, reboot needed/allowed sequences, 16 parameter combinations, invalid app sets, "
+                "timer firings and control requests at the waits; distinct = distinct implementation trace; non-trivial = at least one request or completed check",
+        "assumptions": ["harness trait implementations follow the trait contracts"],
+        "trusted_base": COMMON_TB + ["modelled, not verified: state_machine.rs, request_builder.rs, common.rs (valid)"],
+    },
 }
